@@ -109,3 +109,73 @@ func (r *plRand) Intn(n int) int {
 	r.s = r.s*6364136223846793005 + 1442695040888963407
 	return int((r.s >> 33) % uint64(n))
 }
+
+// TestVerifStatusThread: the real status thread (RunClientUpdater: JSON-encodes every status message, keeps the last one
+// per topic, saves the configuration) runs next to an acquisition whose data blocks are longer than the one-second
+// trigger-rate reporting period, so that one block produces several TRIGGERRATE messages, and next to an ordinary one.
+// Needs VERIF_REAL_CLIENTUPDATER=1 (TestMain must not drain the message channel itself).
+func TestVerifStatusThread(t *testing.T) {
+	base, err := os.MkdirTemp("", "verif_st")
+	if err != nil {
+		t.Fatal(err)
+	}
+	defer os.RemoveAll(base)
+	suStartup(base)
+	abort := make(chan struct{})
+	done := make(chan struct{})
+	go func() { defer close(done); RunClientUpdater(vFreePort("tcp"), abort) }()
+	rqInstallRecover()
+	for k, cfg := range []TriangleSourceConfig{{Nchan: 2, SampleRate: 2000, Min: 0, Max: 2200}, {Nchan: 3, SampleRate: 40000, Min: 100, Max: 400}} {
+		ctl := NewSourceControl()
+		ctl.clientUpdates = clientMessageChan
+		ctl.mapServer = newMapServer()
+		ctl.status.Npresamp, ctl.status.Nsamples = 10, 40
+		stopHB := make(chan struct{})
+		go func() {
+			for {
+				select {
+				case <-ctl.heartbeats:
+				case <-stopHB:
+					return
+				}
+			}
+		}()
+		ok := false
+		c := cfg
+		if err := ctl.ConfigureTriangleSource(&c, &ok); err != nil {
+			t.Fatal(err)
+		}
+		n := "TRIANGLESOURCE"
+		if err := ctl.Start(&n, &ok); err != nil {
+			t.Fatal(err)
+		}
+		ts := TriggerState{AutoTrigger: true, AutoDelay: 50 * time.Millisecond}
+		idx := []int{0, 1}
+		rqCall(func() error {
+			return ctl.ConfigureTriggers(&FullTriggerState{ChannelIndices: idx, TriggerState: ts}, &ok)
+		}, 5*time.Second)
+		rqCall(func() error {
+			return ctl.AddGroupTriggerCoupling(GroupTriggerState{Connections: map[int][]int{0: {1}}}, &ok)
+		}, 5*time.Second)
+		d := "x"
+		for i := 0; i < []int{50, 12}[k]; i++ {
+			ctl.SendAllStatus(&d, &ok)
+			time.Sleep(100 * time.Millisecond)
+		}
+		stopped := make(chan struct{})
+		go func() { ctl.Stop(&d, &ok); close(stopped) }()
+		select {
+		case <-stopped:
+		case <-time.After(5 * time.Second):
+			vEmit(vmap{"ev": "Hang", "workload": "status", "req": "Stop"})
+		}
+		close(stopHB)
+	}
+	time.Sleep(200 * time.Millisecond)
+	close(abort)
+	select {
+	case <-done:
+	case <-time.After(3 * time.Second):
+	}
+	vEmit(vmap{"ev": "Workload", "workload": "status", "blocks": "-"})
+}
